@@ -1,5 +1,8 @@
 SPECIFICATION TraceSpec
-CONSTANT MaxParts = 3
+CONSTANTS
+  MaxParts = 3
+  DevTornTailFailsGet = TRUE
+  DevTimescaleZeroExits = FALSE
 INVARIANT Verdicts
 POSTCONDITION Accepted
 CHECK_DEADLOCK FALSE
